@@ -84,8 +84,10 @@ func (sqlDriver) Open(name string) (driver.Conn, error) {
 type sqlConn struct{ d *SQLDB }
 
 func (c *sqlConn) Prepare(q string) (driver.Stmt, error) { return &sqlStmt{c, q}, nil }
-func (c *sqlConn) Close() error                           { return nil }
-func (c *sqlConn) Begin() (driver.Tx, error)              { return nil, fmt.Errorf("transactions not supported by the fake") }
+func (c *sqlConn) Close() error                          { return nil }
+func (c *sqlConn) Begin() (driver.Tx, error) {
+	return nil, fmt.Errorf("transactions not supported by the fake")
+}
 
 type sqlStmt struct {
 	c *sqlConn
@@ -123,8 +125,8 @@ type SQLUnsupported struct{ Msg string }
 func (e *SQLUnsupported) Error() string { return "verif fake cannot interpret: " + e.Msg }
 
 var (
-	insertRx = regexp.MustCompile(`(?is)^\s*INSERT\s+INTO\s+(\w+)\s*\(([^)]*)\)\s*VALUES\s*\(([^)]*)\)\s*;?\s*$`)
-	selectRx = regexp.MustCompile(`(?is)^\s*SELECT\s+(\w+)\s+FROM\s+(\w+)\s+WHERE\s+(.+?)(?:\s+ORDER\s+BY\s+(\w+)(?:\s+(ASC|DESC))?)?(?:\s+LIMIT\s+(\d+))?\s*;?\s*$`)
+	insertRx  = regexp.MustCompile(`(?is)^\s*INSERT\s+INTO\s+(\w+)\s*\(([^)]*)\)\s*VALUES\s*\(([^)]*)\)\s*;?\s*$`)
+	selectRx  = regexp.MustCompile(`(?is)^\s*SELECT\s+(\w+)\s+FROM\s+(\w+)\s+WHERE\s+(.+?)(?:\s+ORDER\s+BY\s+(\w+)(?:\s+(ASC|DESC))?)?(?:\s+LIMIT\s+(\d+))?\s*;?\s*$`)
 	condRxSQL = regexp.MustCompile(`(?is)^\s*(\w+)\s*=\s*(\S+)\s*$`)
 )
 
